@@ -96,6 +96,9 @@ fn parent(args: &Args) {
     }
     let ends = run::run_children(args, &spec, &mut out);
     run::classify_ends(&ends, &mut out, true);
+    // one-shot scenarios that need the fmt collector as the global default
+    let ends = run::run_children(args, &ChildSpec::new("all", args.get_u64("nested", 8)).arg("part", "nested").timeout(120), &mut out);
+    run::classify_ends(&ends, &mut out, true);
     let sz = sizes(args.tier);
     let mut extra = Map::new();
     vlib::sanlayer::run_layers(ID, args, &mut out, &mut extra);
@@ -170,6 +173,12 @@ fn child(args: &Args) {
             scenario(args.seed, "fmt", 0x3171, idx, &cfg, 1 + (k % 2) as usize, &p, &mut out);
         }
         let _ = sz;
+        nested_events_under_a_global_default(&mut out);
+        out.emit();
+        return;
+    }
+    if args.get("part") == Some("nested") {
+        nested_events_under_a_global_default(&mut out);
         out.emit();
         return;
     }
@@ -310,6 +319,59 @@ fn downcast_probes(out: &mut Out) {
     }
     if let Some(p) = problems.first() {
         out.violation(format!("fmt downcast: {p}"), json!({"part": "downcast", "problems": problems}));
+    }
+}
+
+/// An event field whose Debug impl itself emits an event: with the fmt collector as the GLOBAL
+/// default (under a scoped default the dispatcher's re-entrancy guard sends the inner event to
+/// nobody) the same fmt subscriber formats the inner event while the outer one is half done.
+/// Both must come out as one whole line each, inner first.  One-shot per process (global default).
+fn nested_events_under_a_global_default(out: &mut Out) {
+    struct Chatty(u32);
+    impl std::fmt::Debug for Chatty {
+        fn fmt(&self, f: &mut std::fmt::Formatter<'_>) -> std::fmt::Result {
+            tracing::info!(depth = self.0, "inner event #I{}#", self.0);
+            if self.0 > 1 {
+                tracing::info!(again = ?Chatty(self.0 - 1), "inner event with a chatty field #J{}#", self.0);
+            }
+            write!(f, "chatty{}", self.0)
+        }
+    }
+    let sink = RecSink::new(9);
+    let sub = tracing_subscriber::fmt().with_ansi(false).without_time().with_max_level(tracing::Level::TRACE).with_writer(sink.clone()).finish();
+    if tracing::dispatch::set_global_default(Dispatch::new(sub)).is_err() {
+        out.harness_errors.push("HARNESS: a global default was already set in this child".into());
+        return;
+    }
+    out.count("nested_event_scenarios", 1);
+    let mut problems: Vec<String> = vec![];
+    let mut run = |what: &str, emit: &dyn Fn(), want: &[&str]| {
+        emit();
+        let recs: Vec<Vec<u8>> = sink.take().into_iter().filter_map(|r| if let RecKind::Write(b) = r.kind { Some(b) } else { None }).collect();
+        let lines: Vec<String> = recs.iter().map(|b| String::from_utf8_lossy(b).into_owned()).collect();
+        if lines.len() != want.len() {
+            problems.push(format!("{what}: {} writes for {} records: {lines:?}", lines.len(), want.len()));
+            return;
+        }
+        for (l, w) in lines.iter().zip(want) {
+            if !l.ends_with('\n') || l.trim_end_matches('\n').contains('\n') || !l.contains(w) {
+                problems.push(format!("{what}: expected one whole line containing {w:?}, got {l:?} (all: {lines:?})"));
+                return;
+            }
+        }
+    };
+    run("one level", &|| tracing::warn!(v = ?Chatty(1), "outer event #O1#"), &["#I1#", "#O1#"]);
+    run("two levels", &|| tracing::warn!(v = ?Chatty(2), "outer event #O2#"), &["#I2#", "#I1#", "#J2#", "#O2#"]);
+    run("plain afterwards", &|| tracing::error!(k = 1, "plain #P#"), &["#P#"]);
+    let t = std::thread::spawn(|| tracing::warn!(v = ?Chatty(1), "outer event #T1#"));
+    let _ = t.join();
+    run("other thread", &|| {}, &["#I1#", "#T1#"]);
+    for l in ["v=chatty1", "v=chatty2"] {
+        let _ = l;
+    }
+    out.evals += 4;
+    if let Some(p) = problems.first() {
+        out.violation(format!("nested events under a global fmt default: {p}"), json!({"part": "nested", "problems": problems}));
     }
 }
 
